@@ -78,6 +78,10 @@ def configs(tier):
     # 16 leaves, 4 queue slots: after a worker died the dispatcher repeatedly finds the queue full while the other
     # worker is busy (every schedule within 3 departures from the default order; the whole graph in thorough)
     cfgs.append(S.VisitLeaves(kind="generic", depth=2, W=2, fail_item=(2, 0, 0), fail_exc="runtime", max_deviations=3 if tier == "quick" else None))
+    # a persistent failure of one input among five (a worker that hands its item back would poison the others);
+    # a transform with exactly two workers and 85 tiles, failing on an early tile
+    cfgs.append(S.MultiWcs(nimg=5, W=2, fail_item=(0,), fail_exc="runtime", max_deviations=2 if tier == "quick" else 4))
+    cfgs.append(S.Transform(depth=3, W=2, fail_item=(3, 1, 0), fail_exc="oserror", max_deviations=2 if tier == "quick" else 3))
     # more images after the failing one than the bounded queue holds (2 x workers + 1): if the surviving
     # worker stopped early, the producer would block for ever
     cfgs.append(S.MultiTan(nimg=6, W=2, fail_item=(0,), fail_exc="valueerror"))
